@@ -41,6 +41,7 @@ from mashumaro.core.meta.helpers import (
     is_annotated,
     is_final,
     is_generic,
+    is_hashable,
     is_literal,
     is_named_tuple,
     is_new_type,
@@ -1105,7 +1106,7 @@ def unpack_named_tuple(spec: ValueSpec) -> Expression:
         spec.origin_type
     ]
     annotations = {
-        k: resolved.get(v, v)
+        k: resolved.get(v, v) if is_hashable(v) else v
         for k, v in getattr(spec.origin_type, "__annotations__", {}).items()
     }
     fields = getattr(spec.type, "_fields", ())
@@ -1195,7 +1196,7 @@ def unpack_typed_dict(spec: ValueSpec) -> Expression:
         spec.origin_type
     ]
     annotations = {
-        k: resolved.get(v, v)
+        k: resolved.get(v, v) if is_hashable(v) else v
         for k, v in spec.origin_type.__annotations__.items()
     }
     all_keys = list(annotations.keys())
